@@ -16,7 +16,7 @@ import os
 
 from ..common import Infra, run_vh, last_json
 
-STRUCTURAL = {"GR4J": "X4", "DateGenerator": "startMonth"}
+STRUCTURAL = {"GR4J": ["X4"], "DateGenerator": ["startMonth"], "StorageRouting": ["RoutingPower", "RoutingConstant"]}
 
 
 def run(ctx):
@@ -46,7 +46,7 @@ def run(ctx):
             ctx.report({"kind": m["kind"]}, "JsonSafeArray shape %s shift %s (%s view): %s" % (m.get("shape"), m.get("shift"), m.get("layout"), m["detail"]), m)
     # requests
     reqs = os.path.join(ctx.scratch, "requests.ndjson")
-    rc, out, err = run_vh(ctx, ["jsonrun", "gen", classes, reqs, "-per", "1" if ctx.quick else "6"])
+    rc, out, err = run_vh(ctx, ["jsonrun", "gen", classes, reqs, "-per", "2" if ctx.quick else "8"])
     if rc != 0:
         raise Infra("jsonrun gen failed: " + err[-2000:])
     total = last_json(out)["evaluations"]
@@ -69,10 +69,13 @@ def run(ctx):
         crashes += 1
         q = byid.get(frm, {})
         missing = q.get("missing_params") or []
-        trig = STRUCTURAL.get(q.get("model"))
-        trigger = trig if trig in missing else "none"
+        trigger = "none"
+        for cand in STRUCTURAL.get(q.get("model"), []):
+            if cand in missing:
+                trigger = cand
+                break
         first = [l for l in err.splitlines() if l.startswith("panic:") or "SIG" in l or l.startswith("fatal")][:1]
-        ctx.report({"kind": "crash", "model": q.get("model"), "defaulted": trigger},
+        ctx.report({"kind": "crash", "model": q.get("model"), "defaulted": trigger, "extreme": bool(q.get("extreme"))},
                    "RunSingleModelJSON crashed the process (%s) on a %s request for %s: %s" % (
                        first[0] if first else "?", q.get("class"), q.get("model"), base64.b64decode(q.get("bytes", ""))[:400]),
                    {"request": base64.b64decode(q.get("bytes", "")).decode("utf-8", "replace"), "class": q.get("class"), "stderr": err[-2500:]})
